@@ -24,7 +24,7 @@ POOL_CAP = 14
 
 OPS = [
     # constructors
-    "new_cores", "new_cores_ttm", "new_dense", "new_numpy", "new_dense_ttm", "random", "randn", "ones", "zeros", "eye", "rank1TT",
+    "new_cores", "new_cores_ttm", "tt_from_cores", "new_dense", "new_numpy", "new_dense_ttm", "random", "randn", "ones", "zeros", "eye", "rank1TT",
     "meshgrid",
     # algebra
     "add", "sub", "mul", "add_bcast", "kron", "kron_fn", "matvec", "vecmat", "matmat", "mat_dense", "tt_div",
@@ -226,6 +226,9 @@ class Machine:
         for lst, orig, what in getattr(self, "user_lists", []):
             if lst != orig:
                 return "%s: the caller's list changed from %s to %s" % (what, orig, lst)
+        for lst, orig in getattr(self, "user_core_lists", []):
+            if len(lst) != len(orig) or any(a is not b for a, b in zip(lst, orig)):
+                return "list of cores given to TT(cores): the caller's list was rewritten (entries replaced by the library)"
         return None
 
     def g(self, seed):
@@ -313,6 +316,22 @@ class Machine:
         # ------------------------------------------------------------------ constructors
         if name == "new_cores":
             res = self.mk_t(self.shape_for(seed), seed, rmax=3)
+        elif name == "tt_from_cores":
+            # the documented constructor from a list of cores, given (p even) the core list of a live object or (p odd) a
+            # list the caller keeps: the new object must own its list (a later set_core / reduce_dims on either object
+            # must not reach the other, nor the caller's list)
+            x = self.pick(a, lambda o: True)
+            operands = [x]
+            if p % 2 == 0:
+                res = T.TT(x.cores)
+            else:
+                lst = [c.clone() for c in x.cores]
+                if not hasattr(self, "user_core_lists"):
+                    self.user_core_lists = []
+                self.user_core_lists.append((lst, list(lst)))
+                res = T.TT(lst)
+                if p % 4 == 1:
+                    self.add(T.TT(lst))
         elif name == "new_cores_ttm":
             N = self.shape_for(seed, lim=3)[:3]
             res = self.mk_m(self.shape_for(seed + 1, d=len(N), lim=3), N, seed, rmax=3)
